@@ -60,8 +60,20 @@ func H_C16_order() {
 	vOrderAll(false)
 	vAssert(e0 == nil && e1 == nil, "order: encodes")
 	vAssert(vBytesEq(x0, x1), "order: the encoding is byte-identical under every map iteration order")
+	// encode a different Map in between: earlier results must not change under our feet
+	keep := string(x0)
+	other := Map{"q": map[string]interface{}{"zz": "1"}}
+	switch form {
+	case 0:
+		_, _ = other.Xml()
+	case 1:
+		_, _ = other.XmlIndent("", " ")
+	case 2:
+		_, _ = other.Json()
+	}
+	vAssert(string(x0) == keep, "order: bytes returned earlier are not altered by a later encoding")
 	x2, _ := enc()
-	vAssert(vBytesEq(x0, x2), "order: repeated encoding is byte-identical")
+	vAssert(string(x2) == keep, "order: repeated encoding is byte-identical")
 	if form <= 1 {
 		toks, ok := vRawTokens(x0)
 		vAssert(ok, "order: output tokenises")
@@ -166,7 +178,14 @@ func H_C16_maps() {
 	n := 1 + vChoose(2)
 	var ms Maps
 	for i := 0; i < n; i++ {
-		ms = append(ms, Map{"k": vNondetString(1, 1, "x<&"), "n": []interface{}{"1"}})
+		switch vChoose(3) {
+		case 0:
+			ms = append(ms, Map{})
+		case 1:
+			ms = append(ms, Map{"k": vNondetString(1, 1, "x<&")})
+		default:
+			ms = append(ms, Map{"k": vNondetString(1, 1, "x<&"), "n": []interface{}{"1"}})
+		}
 	}
 	safe := vChoose(2) == 1
 	wantX, wantXI, wantJ, wantJI := "", "", "", ""
